@@ -158,6 +158,12 @@ def run(tier, seed):
                 if i.startswith("ABORT"):
                     rep.violation(dict(kind="abort", clause="numeric:" + kname, has_input=True), "%s kernel aborted under the sanitizers on `%s`: %s" % (kname, c, i), dict(case=c, impl=i))
             families += 1
+        # 8. the flat memory blocks: reset / move / move-assignment into an owner / byte-copy views / for-each (lifetimes, ownership)
+        mbin, err = vlib.build_harness("h_mem")
+        if mbin:
+            from checks import c14
+            cases = c14.gen_cases("quick", rng)[:200 if quick else 400]
+            vlib.differential(rep, mbin, cases, sdir, "mem", clause=lambda c: "mem"); families += 1
         sites = assert_sites()
         rep.coverage["explanation"] = ("Proved part: %d obligations re-checked (no internal assertion of the modelled executors/builders can fire on any tree satisfying the invariant; stack-array capacities; accessor bounds; "
                                        "task captures; overflow guard of the index bit loop with its refutation beyond the guard). Observed part (cannot be carried by a model: addresses, lifetimes, leaks): %d harness families "
